@@ -53,6 +53,10 @@ type Exec struct {
 	steps   int
 	maxStep int
 	aborted bool
+	// PoolReuses counts Pool.Get calls answered with a previously Put object, PoolFresh with New().
+	PoolReuses, PoolFresh int
+	// Preempts counts thread switches away from a still-enabled thread.
+	Outcome string // set by the harness: canonical description of what this execution observed
 }
 
 // Failure is a property failure observed during an execution.
@@ -263,6 +267,16 @@ type Stats struct {
 	MaxChoices  int
 	FailsBySig  map[string]int64
 	FailExample map[string]*Exec
+	WithReuse   int64 // executions in which a pooled object was actually recycled
+	Aborted     int64
+	Outcomes    map[string]int64
+}
+
+// SetOutcome lets the harness describe what the running execution observed (for outcome counting).
+func SetOutcome(s string) {
+	if cur != nil {
+		cur.Outcome = s
+	}
 }
 
 type explorer struct {
@@ -313,6 +327,15 @@ func runExec(prefix []int, mk func() Harness, trace bool, maxSteps int) *Exec {
 // Choices returns the choice sequence taken by the execution.
 func (x *Exec) Choices() []int { return x.choices }
 
+// Alternatives returns, per choice point, how many alternatives it offered.
+func (x *Exec) Alternatives() []int {
+	out := make([]int, len(x.points))
+	for i, p := range x.points {
+		out[i] = p.n
+	}
+	return out
+}
+
 // Aborted reports whether the step horizon stopped the execution.
 func (x *Exec) Aborted() bool { return x.aborted }
 
@@ -348,7 +371,16 @@ func (e *explorer) explore(prefix []int, depth int, mine bool) {
 			e.st.MaxChoices = len(x.choices)
 		}
 		if x.aborted {
-			e.st.Capped = false
+			e.st.Aborted++
+		}
+		if x.PoolReuses > 0 {
+			e.st.WithReuse++
+		}
+		if x.Outcome != "" {
+			if e.st.Outcomes == nil {
+				e.st.Outcomes = map[string]int64{}
+			}
+			e.st.Outcomes[x.Outcome]++
 		}
 		if len(x.Fails) > 0 {
 			e.st.FailCount++
@@ -434,9 +466,15 @@ func (p *Pool) Get() any {
 		v := p.items[idx]
 		p.items = append(p.items[:idx], p.items[idx+1:]...)
 		Logf("pool.get -> pooled object #%d of %d", k, n)
+		if cur != nil {
+			cur.PoolReuses++
+		}
 		return v
 	}
 	Logf("pool.get -> fresh (pool holds %d)", n)
+	if cur != nil {
+		cur.PoolFresh++
+	}
 	if p.New != nil {
 		return p.New()
 	}
